@@ -69,7 +69,7 @@ REQUIRED = REQUIRED_fn  # type: ignore
 _INST = {}
 
 
-def make_instance(n, cfg, matrix=None):
+def make_instance(n, cfg, matrix=None, layout="C"):
     from moptipyapps.ttp.instance import Instance
     key = (n, tuple(cfg))
     if matrix is None and key in _INST:
@@ -82,7 +82,8 @@ def make_instance(n, cfg, matrix=None):
                 if i != j:
                     m[i, j] = 1 + abs(i - j)
     else:
-        m = np.array(matrix, int)
+        from vlib.workloads.arrays import relayout
+        m = relayout(np.array(matrix, int), layout)
     inst = Instance(f"v{n}r{rounds}", m, [f"t{i}" for i in range(n)],
                     rounds, hmin, hmax, amin, amax, smin, smax)
     if matrix is None:
